@@ -77,6 +77,8 @@ def run(ctx):
     rl = ['ksreal %d %d %d %d %d %d 1 15' % (n, no, t, b, ns, ctx.seed * 100 + sd) for (n, no, t, b, ns, sd) in real]
     # the same with keys from lweCreateKeySwitchKey_old (noises recentred after encryption: renormalizeKSkey)
     rl += ['ksreal %d %d %d %d %d %d 1 15 1' % (n, no, t, b, ns, ctx.seed * 100 + sd + 50) for (n, no, t, b, ns, sd) in real if n * t * (1 << b) <= 40000][:: (1 if thorough else 2)]
+    # the key as element 0 of an array of three keys, the other two generated afterwards for other secrets
+    rl += ['ksreal %d %d %d %d %d %d 1 15 2' % (n, no, t, b, ns, ctx.seed * 100 + sd + 70) for (n, no, t, b, ns, sd) in real if n * t * (1 << b) <= 40000][1:: (1 if thorough else 3)]
     for l, o in zip(rl, vlib.run_lines(exes['optim'], rl, timeout=1800)):
         ctx.count(l)
         if o.startswith('CRASH'): ctx.report('ksreal-crash', l + ': ' + o, {'case': l, 'impl': o}); continue
